@@ -37,6 +37,8 @@ def checkVersion (bytes : Bytes) : Except OpenErr Unit :=
 structure Dir where
   marker : Option Bytes
   hasJournal0 : Bool
+  /-- the `keyspaces` folder exists (the directory holds, or held, a database) -/
+  hasKeyspaces : Bool := false
   mutations : Nat
   /-- number of live handles (Database / tx database / Keyspace) sharing the lock guard -/
   holders : Nat
@@ -56,14 +58,17 @@ def openDb (d : Dir) : Dir × Except OpenErr Unit :=
       if d.locked then (d, .error .locked)               -- `try_acquire` refused: nothing touched
       else ({ d with holders := 1, mutations := d.mutations + 1 }, .ok ())
   | none =>
-    -- create path: `create_dir_all`, then the lock file is created/locked first
-    if d.locked then (d, .error .locked)
+    -- create path.  (repaired, finding F12) a folder that already holds keyspaces but no marker is
+    -- refused before anything is created
+    if d.hasKeyspaces then (d, .error (.invalidVersion none))
+    -- `create_dir_all`, then the lock file is created/locked first
+    else if d.locked then (d, .error .locked)
     else if d.hasJournal0 then
       -- `Journal::create_new("0.jnl")` fails with AlreadyExists; the lock and the keyspaces folder
       -- were created before that (a mutation), the guard is released again on return
       ({ d with mutations := d.mutations + 1 }, .error .alreadyExists)
     else
-      ({ d with marker := some (markerMagic ++ [3]), hasJournal0 := true, holders := 1,
+      ({ d with marker := some (markerMagic ++ [3]), hasJournal0 := true, hasKeyspaces := true, holders := 1,
                 mutations := d.mutations + 1 }, .ok ())
 
 inductive HOp | open | clone | drop
